@@ -342,7 +342,7 @@ def rule_assert(toks):
 def rule_mapconcat(toks):
     """R3: `X.iter().map(|p| E).collect::<Vec<_>>().concat()` → accumulate loop (definition of map/collect/concat)"""
     return rewrite(toks, "$X:chain.iter().map(|$p:ident| $E).collect::<Vec<_>>().concat()",
-                   "{ let mut vacc: Vec<u8> = Vec::new(); for $p in $X.iter() { let vpart = $E; vext(&mut vacc, vpart.as_slice()); } vacc }")
+                   "{ let mut vacc: Vec<u8> = Vec::new(); for $p in vit: $X.iter() { let vpart = $E; vext(&mut vacc, vpart.as_slice()); } vacc }")
 
 
 def rule_extend(toks):
